@@ -94,7 +94,7 @@ func (f fshapeA) term() string {
 			var ns []string
 			for _, n := range p.Names {
 				if n.URI != "" {
-					ns = append(ns, fmt.Sprintf("(GUri %d)", urlIDs.id([]byte(n.URI))))
+					ns = append(ns, fmt.Sprintf("(GUri %s)", c18id(n.URI)))
 				} else {
 					ns = append(ns, "GOther")
 				}
@@ -103,6 +103,15 @@ func (f fshapeA) term() string {
 		}
 	}
 	return "(FPoints " + cList(ps) + ")"
+}
+
+// c18id: the model's URL identifier; negative for a URL whose scheme is not plain http
+func c18id(u string) string {
+	id := int64(urlIDs.id([]byte(u)))
+	if !strings.HasPrefix(u, "http://") {
+		id = -id
+	}
+	return cZ(id)
 }
 
 // ---- abstract CRLs ----
@@ -170,7 +179,7 @@ type c18world struct {
 func (w *c18world) RoundTrip(req *http.Request) (*http.Response, error) {
 	u := req.URL.String()
 	w.mu.Lock()
-	w.events = append(w.events, fmt.Sprintf("(EDownload %d)", urlIDs.id([]byte(u))))
+	w.events = append(w.events, fmt.Sprintf("(EDownload %s)", c18id(u)))
 	c, ok := w.server[u]
 	w.mu.Unlock()
 	if !ok {
@@ -181,7 +190,7 @@ func (w *c18world) RoundTrip(req *http.Request) (*http.Response, error) {
 func (w *c18world) Get(ctx context.Context, url string) (*crlpkg.Bundle, error) {
 	w.mu.Lock()
 	defer w.mu.Unlock()
-	w.events = append(w.events, fmt.Sprintf("(EGet %d)", urlIDs.id([]byte(url))))
+	w.events = append(w.events, fmt.Sprintf("(EGet %s)", c18id(url)))
 	if w.getFault {
 		return nil, errors.New("cache get failed (injected)")
 	}
@@ -193,7 +202,7 @@ func (w *c18world) Get(ctx context.Context, url string) (*crlpkg.Bundle, error) 
 func (w *c18world) Set(ctx context.Context, url string, b *crlpkg.Bundle) error {
 	w.mu.Lock()
 	defer w.mu.Unlock()
-	w.events = append(w.events, fmt.Sprintf("(ESet %d)", urlIDs.id([]byte(url))))
+	w.events = append(w.events, fmt.Sprintf("(ESet %s)", c18id(url)))
 	if w.setFault {
 		return errors.New("cache set failed (injected)")
 	}
@@ -220,16 +229,16 @@ type c18op struct {
 }
 
 func (o c18op) term() string {
-	id := urlIDs.id([]byte(o.URL))
+	id := c18id(o.URL)
 	switch o.Kind {
 	case "fetch":
-		return fmt.Sprintf("(OFetch %d)", id)
+		return fmt.Sprintf("(OFetch %s)", id)
 	case "publish":
-		return fmt.Sprintf("(OPublish %d %s)", id, o.CRL.term())
+		return fmt.Sprintf("(OPublish %s %s)", id, o.CRL.term())
 	case "unpublish":
-		return fmt.Sprintf("(OUnpublish %d)", id)
+		return fmt.Sprintf("(OUnpublish %s)", id)
 	case "cacheput":
-		return fmt.Sprintf("(OCachePut %d %s)", id, o.Bundle.term())
+		return fmt.Sprintf("(OCachePut %s %s)", id, o.Bundle.term())
 	}
 	return fmt.Sprintf("(OFaults %s %s)", cB(o.Get), cB(o.Set))
 }
@@ -262,7 +271,7 @@ func runC18(w *CaseWriter, withCache, discard bool, initial map[string]fcrlA, op
 	}
 	sortStrings(us)
 	for _, u := range us {
-		srvTerms = append(srvTerms, fmt.Sprintf("(%d, %s)", urlIDs.id([]byte(u)), initial[u].term()))
+		srvTerms = append(srvTerms, fmt.Sprintf("(%s, %s)", c18id(u), initial[u].term()))
 	}
 	for _, o := range ops {
 		switch o.Kind {
@@ -373,6 +382,7 @@ func genC18(tier string, rng *RNG, w *CaseWriter) {
 	c18issuer = envFixtureGetCA()
 	base := "http://crl.test/f/base.crl"
 	d1, d2, d3 := "http://crl.test/f/dlt1.crl", "http://crl.test/f/dlt2.crl", "http://crl.test/f/dlt3.crl"
+	ldap, d1s := "ldap://dir.test/cn=crl,o=test?certificateRevocationList", "https://crl.test/f/dlt1.crl"
 	uris := func(us ...string) []gnameA {
 		var out []gnameA
 		for _, u := range us {
@@ -392,8 +402,12 @@ func genC18(tier string, rng *RNG, w *CaseWriter) {
 		{Kind: "points", Points: []dpointA{{Kind: "malformed"}}},
 		{Kind: "points", Points: []dpointA{{Kind: "full", Names: uris(d1)}, {Kind: "malformed"}}},
 		{Kind: "points", Points: []dpointA{{Kind: "reasons-only"}}},
-		{Kind: "points", Points: []dpointA{{Kind: "full", Names: []gnameA{{Truncated: true}}}}},            // malformed non-URI name: reading stops there
-		{Kind: "points", Points: []dpointA{{Kind: "full", Names: []gnameA{{URI: d1}, {Truncated: true}}}}}, // URI, then a malformed non-URI name
+		{Kind: "points", Points: []dpointA{{Kind: "full", Names: []gnameA{{Truncated: true}}}}},                      // malformed non-URI name: reading stops there
+		{Kind: "points", Points: []dpointA{{Kind: "full", Names: []gnameA{{URI: d1}, {Truncated: true}}}}},           // URI, then a malformed non-URI name
+		{Kind: "points", Points: []dpointA{{Kind: "full", Names: uris(ldap)}}},                                       // only a non-http location: an advertised delta that cannot be obtained
+		{Kind: "points", Points: []dpointA{{Kind: "full", Names: uris(d1s)}}},                                        // https only (the transport would answer it)
+		{Kind: "points", Points: []dpointA{{Kind: "full", Names: uris(ldap, d1s)}, {Kind: "full", Names: uris(d2)}}}, // non-http locations first, then http
+		{Kind: "points", Points: []dpointA{{Kind: "full", Names: uris(d1, d1s)}}},
 		{Kind: "points", Points: nil},
 		{Kind: "badouter"},
 	}
@@ -408,6 +422,8 @@ func genC18(tier string, rng *RNG, w *CaseWriter) {
 			srv := map[string]fcrlA{base: {ID: 10, Next: "+1h", Fresh: sh}}
 			if mask&1 != 0 {
 				srv[d1] = delta(11, "+1h")
+				srv[d1s] = delta(14, "+1h") // published under https too: must never be requested
+				srv[ldap] = delta(15, "+1h")
 			}
 			if mask&2 != 0 {
 				srv[d2] = delta(12, "+1h")
@@ -421,6 +437,15 @@ func genC18(tier string, rng *RNG, w *CaseWriter) {
 		}
 	}
 	// (2) histories over the operation alphabet
+	// (1b) the fetched URL itself is not plain http although the transport would answer it; with and without a cached entry
+	for _, cfg := range [][2]bool{{false, false}, {true, false}, {true, true}} {
+		for _, bu := range []string{"https://crl.test/f/base.crl", "ldap://dir.test/cn=base", "ftp://crl.test/f/base.crl"} {
+			srv := map[string]fcrlA{bu: {ID: 10, Next: "+1h", Fresh: shapes[0]}, base: {ID: 10, Next: "+1h", Fresh: shapes[0]}}
+			runC18(w, cfg[0], cfg[1], srv, []c18op{{Kind: "fetch", URL: bu}, {Kind: "fetch", URL: base}, {Kind: "fetch", URL: bu}}, []string{"non-http-base"})
+			exp := fcrlA{ID: 5, Next: "-1h", Fresh: shapes[0]}
+			runC18(w, cfg[0], cfg[1], srv, []c18op{{Kind: "cacheput", URL: bu, Bundle: fbundleA{Base: exp}}, {Kind: "fetch", URL: bu}}, []string{"non-http-base"})
+		}
+	}
 	b10 := fcrlA{ID: 10, Next: "+1h", Fresh: shapes[1]}
 	b20 := fcrlA{ID: 20, Next: "+1h", Fresh: shapes[0]}
 	b30 := fcrlA{ID: 30, Next: "+1h", Fresh: shapes[2]}
